@@ -23,7 +23,7 @@ from common import run_driver
 from props import c07
 
 TRUSTED = [
-    'Lean 4.33.0 kernel; axioms of every theorem in Props/C11.lean within {propext, Classical.choice, Quot.sound}',
+    'Lean 4.33.0 kernel; axioms of every theorem in Props/C11*.lean within {propext, Classical.choice, Quot.sound}',
     'harness/props/c11.py (history generator, rebuild-from-seed recipe), harness/clmodel.py (serialisation of object state)',
     'CPython pickle; ECOS for the optimal values compared between a history and its fresh copy (tolerance 1e-6, failures inconclusive)',
 ]
